@@ -7,7 +7,7 @@ FUNCTIONS = ["gcmpy.joint_degree.joint_degree_loaders.joint_degree_cover.JointDe
 STUBS = []
 BOUNDS = {
     "quick": "every cover of 1-2 cliques of 2..5 vertices over vertex ids z..z+V-1 (V<=5, z in {0,1}, every id used, members of a clique distinct), "
-             "plus 3-clique covers with size patterns (2,2,4),(2,4,4),(2,5,2),(5,2,2),(3,5,2),(2,2,5),(3,3,3) over V<=6 whose first clique is z..z+s-1",
+             "plus 3-clique covers with size patterns (2,2,4),(2,4,4),(2,5,2),(5,2,2),(3,5,2),(2,2,5),(3,3,3) over V<=6 whose first clique is z..z+s-1, plus covers made of a fixed 8- or 9-clique, a fixed triangle and one free 2-/3-clique",
     "thorough": "every cover of <=3 cliques over V<=5, and the size-pattern family over V<=6 with 4 cliques",
 }
 OUTSIDE = "covers with more than 4 cliques or cliques above 5 vertices; non-contiguous vertex ids (excluded by the property); the consequence " \
@@ -28,6 +28,10 @@ def configs(tier):
             cfgs.append({"name": f"all-c2-V{V}-z{z}", "kind": "all", "C": 2, "V": V, "z": z})
             if not q:
                 cfgs.append({"name": f"all-c3-V{V}-z{z}", "kind": "all3", "C": 3, "V": V, "z": z})
+    # large cliques: a fixed 8- or 9-clique (and a fixed triangle) plus one free 2- or 3-clique anywhere
+    for big in (8, 9) if q else (8, 9, 12):
+        for z in (0, 1):
+            cfgs.append({"name": f"big{big}-z{z}", "kind": "big", "big": big, "V": big + 2, "z": z})
     for pat in PATTERNS + ([] if q else PATTERNS4):
         for z in (0, 1):
             cfgs.append({"name": f"pattern{pat}-z{z}", "kind": "pattern", "sizes": list(pat), "V": 6, "z": z})
@@ -36,6 +40,14 @@ def configs(tier):
 
 def fork_cover(ctx, cfg):
     V, z = cfg["V"], cfg["z"]
+    if cfg["kind"] == "big":
+        big = cfg["big"]
+        fixed = [list(range(z, z + big)), [z + big - 1, z + big, z + big + 1]]
+        s = ctx.fork_int(ctx.int("size_free", 2, 3))
+        ms = [ctx.int(f"f{i}", z, z + V - 1) for i in range(s)]
+        for a in range(s - 1):
+            ctx.assume(ms[a] < ms[a + 1])
+        return fixed + [[ctx.fork_int(m) for m in ms]], V
     if cfg["kind"] == "pattern":
         sizes = cfg["sizes"]
         V = ctx.fork_int(ctx.int("V", max(sizes), cfg["V"]))
